@@ -43,7 +43,18 @@ def translate(repo):
     ctree = parse(repo, "rpyc/lib/compat.py")
     for fn in ("get_exc_errno",):
         items.append(shape("compat.%s" % fn, func_shape(find_func(ctree, fn))))
-    items.append(shape("compat.poll_classes", "\n".join(ast.unparse(n) for n in ctree.body if isinstance(n, ast.ClassDef) and "poll" in n.name.lower())))
+    # the poll wrappers sit inside `if hasattr(select, "poll")` / else: collect them wherever they are (an empty snapshot ties nothing)
+    polls = [n for n in ast.walk(ctree) if isinstance(n, ast.ClassDef) and "poll" in n.name.lower()]
+    if not polls:
+        raise Unrecognised("compat: no *Poll* class found")
+    items.append(shape("compat.poll_classes", "\n".join(ast.unparse(n) for n in sorted(polls, key=lambda n: n.lineno))))
+    items.append(shape("compat.poll_selection", "\n".join(ast.unparse(n) for n in ctree.body if isinstance(n, (ast.If, ast.Assign)) and "poll" in ast.unparse(n).lower())[:6000]))
+    ltree = parse(repo, "rpyc/lib/__init__.py")
+    for fn in ("spawn", "spawn_waitready"):
+        try:
+            items.append(shape("lib.%s" % fn, func_shape(find_func(ltree, fn))))
+        except Unrecognised:
+            pass
     items.append(shape("retry_errnos", ast.unparse(find_assign(tree, "retry_errnos"))))
     # a closed stream: every use of the descriptor (poll -> fileno, read, write) raises EOFError - what makes serve()/wait() on an ended
     # connection fail at once instead of blocking (consumed by model/Lifecycle.v: wait_outcome)
